@@ -292,6 +292,14 @@ def step (line : String) : String :=
     | some a, some b, some i =>
       okOrPanic ((if ty == "S" then Stat.fromCofactors a b i else Dyn.fromCofactors a b i).map showTab)
     | _, _, _ => "bad-op")
+  -- C19: random() reading an injected word stream (hook verif_rng); asking for a word beyond
+  -- the stream panics in the hook
+  | ["rnd", _, n, ws] =>
+    (match n.toNat?, (if ws == "-" then some #[] else parseWords ws) with
+    | some n, some b =>
+      if b.size < tableSize n then "panic"
+      else s!"ok {showTab (Dyn.random n (fun i => b[i]?.getD 0))} left={b.size - tableSize n}"
+    | _, _ => "bad-op")
   | ["fromblocks", ty, n, ws] =>
     (match n.toNat?, parseWords ws with
     | some n, some b =>
